@@ -24,6 +24,10 @@ Section Lin.
     | x :: r => (x, r) :: map (fun p => (fst p, x :: snd p)) (picks r)
     end.
 
+  (** existsb, but stopping at the first success also under call-by-value evaluation *)
+  Fixpoint any_lazy {A} (f : A -> bool) (l : list A) : bool :=
+    match l with [] => false | a :: r => if f a then true else any_lazy f r end.
+
   Fixpoint search (fuel : nat) (st : St) (pending : list call) : bool :=
     match pending with
     | [] => true
@@ -31,11 +35,13 @@ Section Lin.
         match fuel with
         | O => false
         | S f =>
-            existsb (fun p =>
+            any_lazy (fun p =>
                        let c := fst p in
-                       minimal c (snd p) &&
-                       req (snd (sstep st (c_op c))) (c_ret c) &&
-                       search f (fst (sstep st (c_op c))) (snd p))
+                       (* nested ifs, not &&: under call-by-value evaluation (vm_compute) the
+                          recursive search must not run for a candidate that is already rejected *)
+                       if minimal c (snd p) then
+                         if req (snd (sstep st (c_op c))) (c_ret c) then search f (fst (sstep st (c_op c))) (snd p) else false
+                       else false)
                     (picks pending)
         end
     end.
